@@ -92,6 +92,8 @@ def run(ctx):
             p, what = fail
             ctx.property_failure('c09:%s@%s' % (d.text, p), 'html_matcher on %r at %s: %s' % (d.text[:200], p, what),
                                  {'component': 'c09', 'doc': html_gen.doc_to_json(d), 'pos': p, 'why': what, 'source': label})
+    gen_only = [x for x in docs if x[0].startswith('gen:')]
+    call_sequences(ctx, gen_only[:16 if ctx.tier == 'quick' else 200])
     for (label, d), ps in list(zip(docs, pos_of))[-3:]:
         ctx.sample({'input': d.text[:300], 'xml': d.xml, 'positions': len(ps), 'elements': len(d.elems)})
     # correspondence model vs implementation on the same documents and positions
@@ -115,12 +117,62 @@ def run(ctx):
             ctx.broken.append({'kind': 'correspondence', 'file': 'html-char-classes', 'disagreements': nd})
 
 
+POISON_DOCS = ['<ul><li>a</li><li><b>x', '<div><p>q</p> z', '<a><b><c>', '</x></y>', '<p title="', '<!-- open', '<script>x<b>', '<i>t</i><u><s>']
+
+
+def call_sequences(ctx, docs):
+    """The answer for (document, position) does not depend on earlier calls: positions are queried in a shuffled
+    order, alternating between documents, with queries on half-typed documents interleaved; every answer is checked
+    against the generator's record."""
+    rng = ctx.rng
+    n = bad_n = 0
+    docs = [d for _, d in docs]
+    for k in range(0, len(docs) - 1, 2):
+        queries = []
+        for d in (docs[k], docs[k + 1]):
+            ps = list(range(0, len(d.text) + 1))
+            rng.shuffle(ps)
+            queries += [(d, p) for p in ps[:40]]
+        rng.shuffle(queries)
+        hist = []
+        for j, (d, pos) in enumerate(queries):
+            opts = hu.OPT_SETS['xml' if d.xml else 'html']
+            if j % 3 == 0:
+                poison = rng.choice(POISON_DOCS)
+                pp = rng.randint(0, len(poison))
+                hu.impl_match(poison, pp, opts), hu.impl_outward(poison, pp, opts), hu.impl_inward(poison, pp, opts)
+                hist.append([poison, pp, bool(d.xml)])
+            m, o, i = hu.impl_match(d.text, pos, opts), hu.impl_outward(d.text, pos, opts), hu.impl_inward(d.text, pos, opts)
+            hist.append([d.text, pos, bool(d.xml)])
+            n += 1
+            ctx.count_eval()
+            ctx.cover('call-sequence-queries')
+            bad = hu.c09_problem(d, pos, m, o, i)
+            if bad:
+                bad_n += 1
+                ctx.property_failure('c09:sequence:%s@%d' % (d.text, pos),
+                                     'after other calls (shuffled positions, other documents, half-typed documents) position %d of %r: %s' % (pos, d.text[:120], bad),
+                                     {'component': 'c09-sequence', 'doc': html_gen.doc_to_json(d), 'pos': pos, 'why': bad, 'history': hist[-40:]})
+                if bad_n >= 5:
+                    break
+        if bad_n >= 5:
+            break
+    ctx.cov['call_sequence_queries'] = n
+
+
 def replay(ctx, obj):
     rp = obj.get('replay', {})
     if 'doc' not in rp:
         print('replay names a broken obligation, no input: %s' % json.dumps(rp)[:600])
         return 1
     doc = html_gen.doc_from_json(rp['doc'])
+    if rp.get('component') == 'c09-sequence':
+        for t, q, x in rp.get('history', []):
+            opts = hu.OPT_SETS['xml' if x else 'html']
+            m, o, i = hu.impl_match(t, q, opts), hu.impl_outward(t, q, opts), hu.impl_inward(t, q, opts)
+        bad = hu.c09_problem(doc, rp['pos'], m, o, i)
+        print('after the recorded call history, position %d of %r: %s' % (rp['pos'], doc.text[:200], bad or 'property holds'))
+        return 1 if bad else 0
     ps = list(range(0, len(doc.text) + 1))
     res = hu.run_impl(doc_jobs(doc, ps))
     fail = check_doc(doc, res, ps)
